@@ -613,6 +613,147 @@ func rulePropagate(m *evalModel, r *Report) {
 		}
 	}
 	r.floor("C03.propagate", "error returns under a failed error check", nc, 10)
+	// (a) an error that comes out of nested evaluation reaches the caller as the same value: not wrapped, not
+	// re-positioned; (b) once a nested evaluation has failed, the function returns that error - it does not retry,
+	// continue or return something else
+	isEvalCallee := func(f *ssa.Function) bool {
+		return f != nil && (f == m.EVAL || f == m.evalAst || f == m.doFn || f == m.macroexpand || f == m.apply || f == m.quasiquote)
+	}
+	nf := 0
+	for _, fn := range checkedIn {
+		for _, rt := range errorReturns(fn) {
+			ret := rt[0].(*ssa.Return)
+			ev, _ := rt[2].(ssa.Value)
+			if ev == nil || isNilConst(ev) || !isErrorType(ev.Type()) {
+				continue
+			}
+			for _, leaf := range existingErrorLeaves(ev, 0) {
+				if leaf == ev {
+					continue
+				}
+				for _, pc := range m.producingCalls(leaf, map[ssa.Value]bool{}) {
+					if isEvalCallee(pc.Call.StaticCallee()) {
+						nf++
+						r.bad("C03.propagate", fn, "error of "+pc.Call.StaticCallee().Name()+" altered on the way up", ret.Pos(), "the error of a nested evaluation is wrapped or re-built ("+describeVal(m.e, ev, 0)+"): catch and the Go caller no longer receive the thrown object itself")
+					}
+				}
+			}
+		}
+		for _, b := range fn.Blocks {
+			for _, in := range b.Instrs {
+				c, ok := in.(*ssa.Call)
+				if !ok || !isEvalCallee(c.Call.StaticCallee()) {
+					continue
+				}
+				x := extractOf(c, 1)
+				if x == nil {
+					continue
+				}
+				for _, ref := range *x.Referrers() {
+					bo, ok := ref.(*ssa.BinOp)
+					if !ok || (bo.Op != token.NEQ && bo.Op != token.EQL) || !(isNilConst(bo.X) || isNilConst(bo.Y)) {
+						continue
+					}
+					for _, u := range *bo.Referrers() {
+						iff, ok := u.(*ssa.If)
+						if !ok {
+							continue
+						}
+						idx := 0
+						if bo.Op == token.EQL {
+							idx = 1
+						}
+						nf++
+						problem := ""
+						seenB := map[*ssa.BasicBlock]bool{}
+						work := []*ssa.BasicBlock{iff.Block().Succs[idx]}
+						for len(work) > 0 && problem == "" {
+							cur := work[len(work)-1]
+							work = work[:len(work)-1]
+							if seenB[cur] {
+								continue
+							}
+							seenB[cur] = true
+							if cur == c.Block() {
+								problem = "the evaluation is attempted again after it failed (the error is dropped)"
+								break
+							}
+							if len(cur.Instrs) > 0 {
+								if ret, ok := cur.Instrs[len(cur.Instrs)-1].(*ssa.Return); ok {
+									if len(ret.Results) == 0 {
+										problem = "returns without the error"
+										break
+									}
+									ev := resolveRet(ret.Results[len(ret.Results)-1])
+									if !isErrorType(ev.Type()) || !derivesFromErr(ev, x, 0) {
+										problem = "a return reachable after the failure does not return that error (" + describeVal(m.e, ev, 0) + ")"
+									}
+									continue
+								}
+							}
+							work = append(work, cur.Succs...)
+						}
+						r.check(problem == "", "C03.propagate", fn, "after "+c.Call.StaticCallee().Name()+" failed", c.Pos(), "every path returns that error", problem)
+					}
+				}
+			}
+		}
+	}
+	r.floor("C03.propagate", "failed-evaluation edges followed to their returns", nf, 10)
+}
+
+// existingErrorLeaves: the pre-existing error values v is, positions or wraps (empty for an error built on the spot).
+func existingErrorLeaves(v ssa.Value, depth int) []ssa.Value {
+	if depth > 8 {
+		return nil
+	}
+	switch y := v.(type) {
+	case *ssa.Const:
+		return nil
+	case *ssa.MakeInterface:
+		if !isErrorType(y.X.Type()) {
+			if c, ok := y.X.(*ssa.Call); ok {
+				return existingErrorLeaves(c, depth+1)
+			}
+			return nil
+		}
+		return existingErrorLeaves(y.X, depth+1)
+	case *ssa.ChangeInterface:
+		return existingErrorLeaves(y.X, depth+1)
+	case *ssa.Phi:
+		var out []ssa.Value
+		for _, op := range y.Edges {
+			out = append(out, existingErrorLeaves(op, depth+1)...)
+		}
+		return out
+	case *ssa.Call:
+		c := y.Call.StaticCallee()
+		if c == nil {
+			return []ssa.Value{v}
+		}
+		switch c.Name() {
+		case "New":
+			return nil
+		case "NewLispError":
+			a := y.Call.Args[0]
+			if _, isIface := unboxed(a).Type().Underlying().(*types.Interface); !isIface {
+				return nil
+			}
+			return existingErrorLeaves(unboxed(a), depth+1)
+		case "Errorf":
+			var out []ssa.Value
+			if len(y.Call.Args) == 2 {
+				for _, el := range sliceLiteralElems(y.Call.Args[1]) {
+					if u := unboxed(el); isErrorType(u.Type()) {
+						out = append(out, existingErrorLeaves(u, depth+1)...)
+					}
+				}
+			}
+			return out
+		}
+		return []ssa.Value{v}
+	}
+	return []ssa.Value{v}
 }
 
 // nearestCheckedError: the error value whose non-nil test is the innermost branch condition the block is under.
@@ -1589,6 +1730,9 @@ func okLocalStore(st *ssa.Store) bool {
 // user typed (watch expressions read from strings); the form it is handed by the evaluator never flows into
 // an evaluating call - evaluating (or macro-expanding) it a second time would duplicate its effects.
 func engineRule(w *World, r *Report, e *Engine) {
+	r.rule("C18.form-intact", "the repository's debugger engine writes into no form or value it is handed (container writes in package debugger go to storage allocated in the same activation; shared with C02.write): tracing a program does not change it")
+	nfi := ruleContainerWrites(w, r, e, "C18.form-intact", func(fn *ssa.Function) bool { return fnPkgPath(fn) == modPath+"/debugger" }, false)
+	r.add("C18.form-intact", nil, "container writes in package debugger", token.NoPos, "info", fmt.Sprintf("%d write site(s)", nfi))
 	r.rule("C18.reentrant", "the repository's debugger engine holds no mutex while it calls into the evaluator (watch expressions, the expression prompt): EVAL calls the stepper again on the same goroutine, and a mutex is not reentrant")
 	nre := 0
 	for _, fn := range w.pkgFuncs("debugger") {
